@@ -24,7 +24,12 @@ Theorems (Property.v; all closed under the global context):
   C19_invalid_shard_rejected / C19_invalid_stage_rejected   invalid requests do raise
   C19_ser_current_names  serialize_node_device_configuration uses the current names (characterisation)
   C19_roundtrip_identity DevInv h -> rt_domain h -> ir >= 11 -> ser_ok h -> roundtrip h = (h, Ok tt)
-  C19_roundtrip_old_ir   ir < 11: the round trip drops every annotation and configuration (DevInv kept)
+  C19_resolve_through_scopes  a successful lookup returns the value declared under that name in the innermost
+                         enclosing scope declaring it (captured values found in enclosing scopes, locals shadow)
+  C19_roundtrip_old_ir   ir < 11: configurations and the annotations of main-graph / function nodes are dropped
+  C19_old_ir_nested_dangles  (observation, outside the quantifier) ir < 11: nodes inside subgraph bodies keep
+                         their annotations (the IR gate is not passed down to serialize_graph_into for graph
+                         attributes) while the configurations are dropped: dangling reference, check kind 3
   C19_noncascade_breaks  (documented behaviour, not a finding) remove without cascade leaves a dangling ref
 Reading of the English (weaker reading where ambiguous):
   * "registered on its model": the node configuration's ModelConfiguration object `is` an element of
@@ -38,16 +43,22 @@ Reading of the English (weaker reading where ambiguous):
     (names_nonempty); with an empty name the check reports exactly the empty-name message and
     serialization raises.
   * "rejected without effect": any exception type, canonical state (by handles) unchanged.
-Tie: see above; histories interleave all twelve ops on a model with a main graph and a function (so the
-  all_nodes()+functions traversals of cascade / check / resolve are exercised); strict histories stay in
+Tie: see above; histories interleave all twelve ops on a model with a main graph and a function whose nodes
+  carry nested subgraph bodies (depth <= 2; body nodes are annotated on values captured from enclosing graphs,
+  on local values and on locals shadowing unused outer names — generator op "shadow") so the
+  all_nodes()+functions traversals of cascade / check / resolve, the scope stack of the deserializer and the
+  order in which the cloner fills its value map (outputs of a node after its bodies) are exercised; strict
+  histories stay in
   the alphabet, malformed ones add non-cascade removal, unregistered configurations and out-of-range devices.
 Modelled, not verified: protobuf field presence, Graph/Function containers and usage tracking (C01), name
   authority, shape/type (de)serialization (only the rank is observed), SimpleShardedDim.dim,
-  index_to_device_group_map (never produced by the API), device_names, subgraph scopes (the world has a main
-  graph and one function, no If/Loop bodies), None references (tensor_name / configuration_id absent).
-  Round trips are modelled on the domain "live value names are non-empty and pairwise distinct"
-  (rt_domain); outside it the model answers Raise OtherError and the harness does not call the
-  implementation.
+  index_to_device_group_map (never produced by the API), device_names, graph inputs of subgraph bodies
+  (bodies are If-style, without inputs of their own), None references (tensor_name / configuration_id absent).
+  Round trips are modelled on the domain rt_domain = "the wiring itself survives": in every scope the declared
+  values (graph inputs, node outputs) have non-empty names that identify them, and every input/output of every
+  node resolves through the scope stack of its graph to itself; outside it the model answers Raise OtherError
+  and the harness (World.rt_offenders mirrors the definition) does not call the implementation.
+  Nodes that own bodies are never removed; values are used only inside their own root (main graph / function).
 Observations on the three reading decisions (probed on every run, evidence key probes_outside_alphabet;
   none is a violation of the statement, which lists none of them):
   * Node.shard accepts device indices outside range(num_devices); the library's check then reports
@@ -75,6 +86,9 @@ Mutants of /repo tried (scratch worktree, VERIF_REPO; quick tier, seed 0) — al
   M9  _resolve_node_device_configurations skips functions             correspondence + oracle (round trip)
   M10 conflicting stage not checked when the configuration has specs  correspondence + oracle (request accepted)
   The shrunk witnesses of M1-M6, M8-M10 are kept in corpus/C19 (run first on every run).
+  Seeded C19-m3 (deserializer resolves sharding names against the innermost scope only): missed by the first
+  version (no subgraph bodies in the world); caught since the model/generator have nested scopes — correspondence
+  + oracle with a concrete replay (body node sharding a captured value, then a round trip).
 """
 
 from __future__ import annotations
@@ -175,8 +189,10 @@ def c_obs(ob) -> str:
 
 def c_state(st) -> str:
     names = clist(f"({vid}, {zstr(nm)})" for vid, nm in st["names"])
+    sc = (f"(mkSc {st['nmain']}%nat {clist(f'({a}, {b})' for a, b in st['nscope'])} "
+          f"{clist(f'({a}, {b})' for a, b in st['parent'])})")
     return (f"(mkSt {names} {c_nodes(st['nodes'])} {clist(c_val(v) for v in st['gin'])} [] "
-            f"{st['nextv']} 0 {st['ir']})")
+            f"{st['nextv']} 0 {st['ir']} {sc})")
 
 
 CASE_HEADER = """From Coq Require Import ZArith List Bool.
@@ -230,8 +246,10 @@ class World:
         self.nid_of: dict[int, int] = {}
         self.nregion: dict[int, int] = {}
         self.keep: list = []          # keeps replaced objects alive so id() is never reused
+        self.nscope: dict[int, int] = {}     # node handle -> scope (0 main graph, 1 function, >= 2 subgraph body)
+        self.parent: dict[int, int] = {}     # body scope -> enclosing scope
+        self._tmp_scope: dict[int, int] = {}
         graphs = []
-        nid = 0
         for ri, reg in enumerate(init["regions"]):
             pool = []
             ins = []
@@ -240,24 +258,16 @@ class World:
                 self._reg_value(v, ri)
                 ins.append(v)
                 pool.append(v)
-            nodes = []
-            for nd in reg["nodes"]:
-                node = ir.Node("", "Op", [None if r is None else pool[r] for r in nd["ins"]],
-                               num_outputs=len(nd["outs"]), name=f"n{nid}")
-                self.nid_of[id(node)] = nid
-                self.nregion[nid] = ri
-                nid += 1
-                for o, (rank, name) in zip(node.outputs, nd["outs"]):
-                    o.name = name
-                    if rank is not None:
-                        o.shape = ir.Shape([2] * rank)
-                        o.type = ir.TensorType(ir.DataType.FLOAT)
-                    self._reg_value(o, ri)
-                    pool.append(o)
-                nodes.append(node)
+            nodes = self._build_nodes(reg["nodes"], pool, ri)
             graphs.append(ir.Graph(ins, [], nodes=nodes, opset_imports={"": 20}, name=f"g{ri}"))
         func = ir.Function("dom", "F", graph=graphs[1], attributes=[])
         self.model = ir.Model(graphs[0], ir_version=init["ir"], functions=[func])
+        # node handles follow all_nodes() order (a node before the nodes of its bodies)
+        for nid, n in enumerate(self.node_objs()):
+            self.nid_of[id(n)] = nid
+            self.nscope[nid] = self._tmp_scope[id(n)]
+            n.name = f"n{nid}"
+            self.nregion[nid] = self._root(self.nscope[nid])
         self.n_init_vals = len(self.vals)
 
     # ---- tables
@@ -292,6 +302,69 @@ class World:
         if cid is None:
             cid = self._reg_cfg(c)
         return (cid, c.name, c.num_devices)
+
+    def _build_nodes(self, specs, pool, scope):
+        """Nodes of one graph; a node may carry subgraph bodies (graph attributes, If/Loop style, no graph inputs)
+        whose nodes see the values declared so far in the enclosing graphs (captured values) and their own."""
+        ir = self.ir
+        nodes = []
+        for nd in specs:
+            attrs = []
+            for bi, body in enumerate(nd.get("bodies", [])):
+                sid = 2 + len(self.parent)
+                self.parent[sid] = scope
+                bnodes = self._build_nodes(body["nodes"], list(pool), sid)
+                attrs.append(ir.AttrGraph(f"body{bi}", ir.Graph([], [], nodes=bnodes, name=f"g{sid}")))
+            node = ir.Node("", "Op", [None if r is None else pool[r] for r in nd["ins"]], attrs,
+                           num_outputs=len(nd["outs"]))
+            self._tmp_scope[id(node)] = scope
+            for o, (rank, name) in zip(node.outputs, nd["outs"]):
+                o.name = name
+                if rank is not None:
+                    o.shape = ir.Shape([2] * rank)
+                    o.type = ir.TensorType(ir.DataType.FLOAT)
+                self._reg_value(o, None)
+                pool.append(o)
+            nodes.append(node)
+        return nodes
+
+    def _root(self, scope):
+        while scope in self.parent:
+            scope = self.parent[scope]
+        return scope
+
+    def chain(self, scope) -> list:
+        out = [scope]
+        while out[-1] in self.parent and len(out) <= len(self.parent):
+            out.append(self.parent[out[-1]])
+        return out
+
+    def decl(self, scope) -> list:
+        """Values declared in a scope: its graph inputs and the outputs of its own nodes."""
+        vals = []
+        if scope == 0:
+            vals += list(self.model.graph.inputs)
+        elif scope == 1:
+            vals += list(self.function().inputs)
+        for n in self.node_objs():
+            if self.nscope[self.nid_of[id(n)]] == scope:
+                vals += list(n.outputs)
+        return vals
+
+    def resolve(self, scope, name, names=None):
+        nm = (lambda v: v.name) if names is None else (lambda v: names.get(id(v), v.name))
+        for s in self.chain(scope):
+            for v in self.decl(s):
+                if (nm(v) or "") == (name or ""):
+                    return v
+        return None
+
+    def visible(self, nid) -> list:
+        return [v for s in self.chain(self.nscope[nid]) for v in self.decl(s)]
+
+    def has_bodies(self, node) -> bool:
+        return any(a.type in (self.ir.AttributeType.GRAPH, self.ir.AttributeType.GRAPHS)
+                   for a in node.attributes.values())
 
     def function(self):
         return next(iter(self.model.functions.values()))
@@ -384,11 +457,30 @@ class World:
     def init_state(self) -> dict:
         return {"names": [(i, v.name or "") for i, v in enumerate(self.vals)], "nodes": self.canon_nodes(),
                 "gin": [self.vrec(v) for v in self.gin_objs()], "nextv": len(self.vals),
-                "ir": self.model.ir_version}
+                "ir": self.model.ir_version, "nmain": len(self.model.graph.inputs),
+                "nscope": sorted(self.nscope.items()), "parent": sorted(self.parent.items())}
+
+    def rt_offenders(self, names=None) -> list:
+        """Values violating Model.rt_domain: within a scope names are non-empty and identify the declared values;
+        every input/output of every node resolves through the scope stack of its graph to itself."""
+        nm = (lambda v: v.name) if names is None else (lambda v: names.get(id(v), v.name))
+        bad = []
+        for s in [0, 1] + sorted(self.parent):
+            seen = {}
+            for v in self.decl(s):
+                if not nm(v) or (nm(v) in seen and seen[nm(v)] is not v):
+                    bad.append(v)
+                else:
+                    seen[nm(v)] = v
+        for n in self.node_objs():
+            sc = self.nscope[self.nid_of[id(n)]]
+            for v in _io(n):
+                if self.resolve(sc, nm(v), names) is not v:
+                    bad.append(v)
+        return bad
 
     def rt_domain(self) -> bool:
-        names = [v.name for v in self.live_objs()]
-        return all(names) and len(set(names)) == len(names)
+        return not self.rt_offenders()
 
     # ---- executing one op on the real objects
     def apply(self, o: dict) -> str:
@@ -423,12 +515,11 @@ class World:
                 before = len(node.outputs)
                 node.resize_outputs(o["k"])
                 for v in node.outputs[before:]:
-                    self._reg_value(v, self.nregion[o["n"]])
+                    self._reg_value(v, None)
             elif k == "resize_in":
                 self.node_by_id(o["n"]).resize_inputs(o["k"])
             elif k == "remove_node":
-                node = self.node_by_id(o["n"])
-                self.regions()[self.nregion[o["n"]]].remove(node, safe=True)
+                node.graph.remove(node, safe=True)
             elif k == "clone":
                 self._rebind_clone(self.model.clone())
             elif k == "roundtrip":
@@ -464,12 +555,12 @@ class World:
         if len(new_gin) != len(old_gin):
             raise HarnessError("clone changed the number of graph inputs")
         for a, b in zip(old_gin, new_gin):
-            self._reg_value(b, self.vregion[self.vid_of[id(a)]])
+            self._reg_value(b, None)
         for a, b in zip(old, new):
             if len(a.outputs) != len(b.outputs):
                 raise HarnessError("clone changed the number of outputs")
             for va, vb in zip(a.outputs, b.outputs):
-                self._reg_value(vb, self.vregion[self.vid_of[id(va)]])
+                self._reg_value(vb, None)
 
     def _rebind_roundtrip(self, new_model):
         old_gin = self.gin_objs()
@@ -508,27 +599,37 @@ class World:
 NAME_POOL = ["x", "y", "w", "a_b", "t0", "t1", "", "x"]
 
 
+def _gen_nodes(rng, cnt: list, pool: int, n_nodes: int, depth: int) -> list:
+    """Node specs of one graph; `pool` = number of values visible so far (enclosing graphs + this one)."""
+    nodes = []
+    for _ in range(n_nodes):
+        ins = [rng.choice([None] + list(range(pool)) * 3) for _ in range(rng.randrange(0, 4))]
+        nd = {"ins": ins}
+        if depth < 2 and rng.random() < (0.45 if depth == 0 else 0.3):
+            nd["bodies"] = [{"nodes": _gen_nodes(rng, cnt, pool, rng.randrange(1, 3), depth + 1)}
+                            for _ in range(rng.choice([1, 1, 2]))]
+        outs = []
+        for _ in range(rng.randrange(1, 4)):
+            outs.append((rng.choice([None, 1, 2, 2, 3]), f"v{cnt[0]}"))
+            cnt[0] += 1
+        nd["outs"] = outs
+        nodes.append(nd)
+        pool += len(outs)
+    return nodes
+
+
 def gen_init(rng) -> dict:
     regions = []
-    cnt = 0
+    cnt = [0]
     for ri in range(2):
         n_in = rng.randrange(1, 4) if ri == 0 else rng.randrange(1, 3)
         inputs = []
         for _ in range(n_in):
             # function inputs: rank unknown (their shape is not carried by FunctionProto; observed, C03's area)
-            inputs.append((rng.choice([None, 0, 1, 2, 2, 3]) if ri == 0 else None, f"v{cnt}"))
-            cnt += 1
-        nodes = []
-        pool = n_in
-        for _ in range(rng.randrange(1, 5) if ri == 0 else rng.randrange(1, 3)):
-            ins = [rng.choice([None] + list(range(pool)) * 3) for _ in range(rng.randrange(0, 4))]
-            outs = []
-            for _ in range(rng.randrange(1, 4)):
-                outs.append((rng.choice([None, 1, 2, 2, 3]), f"v{cnt}"))
-                cnt += 1
-            nodes.append({"ins": ins, "outs": outs})
-            pool += len(outs)
-        regions.append({"inputs": inputs, "nodes": nodes})
+            inputs.append((rng.choice([None, 0, 1, 2, 2, 3]) if ri == 0 else None, f"v{cnt[0]}"))
+            cnt[0] += 1
+        n_nodes = rng.randrange(1, 4) if ri == 0 else rng.randrange(1, 3)
+        regions.append({"inputs": inputs, "nodes": _gen_nodes(rng, cnt, n_in, n_nodes, 0 if ri == 0 else 1)})
     return {"ir": rng.choice([11, 11, 11, 11, 11, 12, 13, 10]), "regions": regions}
 
 
@@ -567,7 +668,7 @@ class Gen:
         nodes = w.canon_nodes()
         kinds = (["shard"] * 30 + ["stage"] * 7 + ["addcfg"] * 8 + ["remcfg"] * 5 + ["rename"] * 7
                  + ["replace_input"] * 12 + ["resize_out"] * 8 + ["resize_in"] * 5 + ["remove_node"] * 2
-                 + ["clone"] * 5 + ["roundtrip"] * 8)
+                 + ["clone"] * 5 + ["roundtrip"] * 8 + ["shadow"] * 3)
         if not self._registered(w):
             kinds += ["addcfg"] * 40
         reg_now = self._registered(w)
@@ -666,9 +767,12 @@ class Gen:
                 sharded_pos = [i for i, v in enumerate(nd["in"]) if v is not None
                                and any(sp[0] == v for dc in nd["dc"] for sp in dc[2])]
                 i = r.choice(sharded_pos) if sharded_pos and r.random() < 0.6 else r.randrange(len(nd["in"]))
-                reg = w.nregion[nid]
-                pool = [w.vrec(v) for vid, v in enumerate(w.vals)
-                        if w.vregion[vid] == reg and id(v) in {id(x) for x in w.live_objs()}]
+                pool = [w.vrec(v) for v in w.visible(nid)]
+                if r.random() < 0.05:
+                    # any value of the same root (main graph / function), visible or not: forward references,
+                    # values local to a sibling body, the owner's own outputs
+                    root = w.nregion[nid]
+                    pool = [w.vrec(v) for sc in [root] + sorted(w.parent) if w._root(sc) == root for v in w.decl(sc)]
                 u = r.random()
                 if u < 0.25 or not pool:
                     v = None
@@ -690,19 +794,35 @@ class Gen:
                 nid, nd = r.choice(nodes)
                 return {"op": "resize_in", "n": nid, "k": max(0, len(nd["in"]) + r.choice([-2, -1, -1, 0, 1, 2]))}
             if k == "remove_node":
-                return {"op": "remove_node", "n": r.choice(nodes)[0]}
+                cand = [nid for nid, _ in nodes if not w.has_bodies(w.node_by_id(nid))]
+                if not cand:
+                    continue
+                return {"op": "remove_node", "n": r.choice(cand)}
+            if k == "shadow":
+                # give a body-local value the name of a value declared in an enclosing graph
+                loc = [(nid, v) for nid, nd in nodes if w.nscope[nid] >= 2 for v in nd["out"]]
+                if not loc:
+                    continue
+                nid, v = r.choice(loc)
+                outer = [x for sc in w.chain(w.nscope[nid])[1:] for x in w.decl(sc) if x.name]
+                if not outer:
+                    continue
+                return {"op": "rename", "v": v, "name": r.choice(outer).name}
             if k == "clone":
                 return {"op": "clone"}
             if k == "roundtrip":
                 if not w.rt_domain() and r.random() < 0.85:
                     # repair the names first (renames are ordinary ops of the history)
-                    seen = set()
-                    for v in w.live_objs():
-                        if not v.name or v.name in seen:
-                            self.fresh += 1
-                            self.pending.append({"op": "rename", "v": w.vrec(v), "name": f"u{self.fresh}"})
-                        else:
-                            seen.add(v.name)
+                    # rename only what breaks the wiring (shadowing of unused outer names is kept)
+                    names = {}
+                    for _ in range(12):
+                        bad = w.rt_offenders(names)
+                        if not bad:
+                            break
+                        v = bad[0]
+                        self.fresh += 1
+                        names[id(v)] = f"u{self.fresh}"
+                        self.pending.append({"op": "rename", "v": w.vrec(v), "name": names[id(v)]})
                     self.pending.append({"op": "roundtrip"})
                     return self.pending.pop(0)
                 return {"op": "roundtrip"}
@@ -915,6 +1035,10 @@ def run_history(init: dict, ops, strict: bool, gen: Gen | None = None, nops: int
             break
         cb = {k: v for k, v in canon_before.items() if k not in ("res", "why")}
         ca = {k: v for k, v in ob.items() if k not in ("res", "why")}
+        if o["op"] == "roundtrip" and res == "ok" and w.model.ir_version < 11:
+            # the property speaks of round trips at IR >= 11; below, nodes inside subgraph bodies keep annotations
+            # whose configurations were dropped (observation, see module docstring): configuration/device clauses off
+            strict = False
         bad = oracle_step(w, o, res, before, cb, ca, strict, invalid) + oracle_state(w, strict)
         if bad:
             failures.append((i, bad))
@@ -1047,6 +1171,21 @@ def probes(ck) -> None:
     x.shape = ir.Shape([2])
     obs["shape of a sharded value edited afterwards (rank 2 -> 1); check reports"] = \
         [classify(s)[0] for s in md._check_device_configurations(m)]
+    # below IR 11: the gate is not applied inside subgraph bodies
+    x = ir.Value(name="x", shape=ir.Shape([2, 3]), type=ir.TensorType(ir.DataType.FLOAT))
+    inner = ir.Node("", "Relu", [x], name="n1")
+    inner.outputs[0].name = "y"
+    top = ir.Node("", "Op", [], [ir.AttrGraph("body", ir.Graph([], [], nodes=[inner], name="b"))], name="n0")
+    top.outputs[0].name = "z"
+    m = ir.Model(ir.Graph([x], [], nodes=[top], opset_imports={"": 20}, name="g"), ir_version=10)
+    c = m.add_device_configuration("c", num_devices=2)
+    inner.shard(x, configuration=c, axis=0, num_shards=2)
+    top.set_pipeline_stage(c, 0)
+    m2 = ir.from_proto(ir.to_proto(m))
+    obs["round trip at IR 10: (configurations, annotated top-level nodes, annotated nested nodes, check kinds)"] = \
+        [len(m2.device_configurations), sum(1 for n in m2.graph if n.device_configurations),
+         sum(1 for n in m2.graph.all_nodes() if n.device_configurations) - sum(1 for n in m2.graph if n.device_configurations),
+         [classify(s)[0] for s in md._check_device_configurations(m2)]]
     ck.coverage["probes_outside_alphabet"] = {k: v for k, v in obs.items()}
 
 
